@@ -269,8 +269,8 @@ def run(ctx: Ctx):
     ctx.assume("sympy's simplification is sound (a residual that normalises to 0 is identically 0 on the declared domain)")
     ctx.assume("scipy.optimize results: .success is truthful, .x belongs to the same result")
     lists = r_registry(ctx, model, tr)
+    r_branch(ctx, model, tr)      # exact-point counterexamples first: they stand even if a normal form cannot be reached later
     r_inverse(ctx, model, tr)
-    r_branch(ctx, model, tr)
     r_numinv(ctx, model, tr)
     r_zero_henry_mono(ctx, model, tr, lists)
     ctx.analysed["models"] = lists["_MODELS"]
